@@ -379,7 +379,7 @@ def attribute(case, v):
             return "D23"
     if v.kind == "rows-differ" and final[0] == "proj" and "backtrack=True" in str(v.extra.get("opts", "")):
         n = base
-        while n[0] != "xfer":
+        while n[0] not in ("leaf", "chain", "join"):  # the whole spine: the projection may travel through several transfers
             if n[0] == "dedup":
                 return "D12"
             n = n[1]
